@@ -164,9 +164,11 @@ func runEngineCase(c Case) (out engineOut) {
 	res := func() (s string) {
 		defer func() {
 			if r := recover(); r != nil {
+				// patchRunner.Apply and patch.File.Apply recover panics raised while a file is
+				// being patched and report them as an error for that file
 				trace = append(trace, "e")
 				out.failed = true
-				s = `(panic "` + esc(fmt.Sprint(r)) + `")`
+				s = `(err "recovered panic: ` + esc(fmt.Sprint(r)) + `")`
 			}
 		}()
 		for _, ch := range changes {
